@@ -4812,7 +4812,9 @@ func (d *Document) parseCNvGraphicFramePr(decoder *xml.Decoder) (*CNvGraphicFram
 
 // parseDrawingGraphic 解析绘图图形元素
 func (d *Document) parseDrawingGraphic(decoder *xml.Decoder, startElement xml.StartElement) (*DrawingGraphic, error) {
-	graphic := &DrawingGraphic{}
+	// 写出时 a:graphic 总是自己声明 a 前缀：源文档若把它声明在别处（例如根元素上），这里仍要有正确的命名空间
+	// （空值会写成 xmlns:a=""，那不是合法的命名空间声明）
+	graphic := &DrawingGraphic{Xmlns: "http://schemas.openxmlformats.org/drawingml/2006/main"}
 
 	// 解析xmlns属性
 	for _, attr := range startElement.Attr {
@@ -4893,7 +4895,8 @@ func (d *Document) parseGraphicData(decoder *xml.Decoder, startElement xml.Start
 
 // parsePicElement 解析图片元素
 func (d *Document) parsePicElement(decoder *xml.Decoder, startElement xml.StartElement) (*PicElement, error) {
-	pic := &PicElement{}
+	// 与 a:graphic 相同：pic:pic 写出时总是自己声明 pic 前缀
+	pic := &PicElement{Xmlns: "http://schemas.openxmlformats.org/drawingml/2006/picture"}
 
 	// 解析xmlns属性
 	for _, attr := range startElement.Attr {
@@ -5020,6 +5023,9 @@ func (d *Document) parseBlipFill(decoder *xml.Decoder, startElement xml.StartEle
 				for _, attr := range t.Attr {
 					if attr.Name.Local == "embed" {
 						blip.Embed = attr.Value
+					}
+					if attr.Name.Local == "link" {
+						blip.Link = attr.Value // 链接（而不是嵌入）的图片
 					}
 				}
 				blipFill.Blip = blip
